@@ -1784,3 +1784,43 @@ def _matches(ex, c, a, dt):
             out.append(strref(p) if c.method == 'matches' else Tup([Cell(pos), Cell(strref(p))]))
         off = binop('Add', off, binop('Add', n, len(t), 'usize'), 'usize')
     return ListIt(out)
+
+@native(('RangeInclusive', 'new'))
+def _ri_new(ex, c, a, dt):
+    return Struct('std::ops::RangeInclusive', [Cell(a[0]), Cell(a[1]), Cell(False)], ['start', 'end', 'exhausted'])
+@native(('RangeInclusive', 'start'), ('RangeInclusive', 'end'))
+def _ri_start(ex, c, a, dt):
+    return Ref(deref(a[0]).f[0 if c.method == 'start' else 1])
+@native(('RangeInclusive', 'is_empty'))
+def _ri_is_empty(ex, c, a, dt):
+    r = deref(a[0])
+    return r.f[2].v or not truth(ex, binop('Le', r.f[0].v, r.f[1].v, 'usize'))
+
+class RangeInclIt(It):
+    def __init__(self, rng): self.rng = rng
+    def next(self, ex):
+        r = self.rng
+        if r.f[2].v: return STOP
+        s, e = r.f[0].v, r.f[1].v
+        if truth(ex, binop('Lt', s, e, 'usize')):
+            r.f[0].v = binop('Add', s, 1, 'usize')
+            return s
+        if truth(ex, binop('Eq', s, e, 'usize')):
+            r.f[2].v = True
+            return s
+        return STOP
+
+_orig_to_iter = to_iter
+def to_iter(ex, v):
+    d = v.cell.v if type(v) is Ref else v
+    if type(d) is Struct and d.ty.endswith('RangeInclusive'):
+        return RangeInclIt(d)
+    return _orig_to_iter(ex, v)
+_orig_iter_of = iter_of
+def iter_of(v):
+    d = v
+    while type(d) is Ref:
+        d = d.cell.v
+    if type(d) is Struct and d.ty.endswith('RangeInclusive'):
+        return RangeInclIt(d)
+    return _orig_iter_of(v)
